@@ -1,5 +1,6 @@
 import Usid.Driver.J
 import Usid.Model.Process
+import Usid.Model.Sync
 namespace Usid.Driver
 open Lean Usid.J Usid.Proc
 
@@ -40,5 +41,25 @@ def hProcRun (j : Json) : R Json := do
 def hSocket (j : Json) : R Json := do
   let names ← strList j "names"
   return ofNatList (socketMasters names)
+
+/-- `sync.safe`: is the synchronisation skeleton extracted from `compute()` safe; `sync.run`: what every rank had
+    seen of the completion marks when it derived its range, under a given schedule -/
+def parseProg (j : Json) : R Usid.Sync.Prog := do
+  return (← strList j "prog").map fun s => match s with
+    | "assign" => Usid.Sync.Instr.assign
+    | "barrier" => .barrier
+    | "mark" => .mark
+    | _ => .other
+
+def hSyncSafe (j : Json) : R Json := do
+  return Json.bool (Usid.Sync.Safe (← parseProg j))
+
+def hSyncRun (j : Json) : R Json := do
+  let p ← parseProg j
+  let n ← nat j "n"
+  let s := Usid.Sync.run p n Usid.Sync.init (← natList j "schedule")
+  return Json.mkObj [("seen", ofList ((List.range n).map fun r => match s.seen r with
+    | none => Json.null
+    | some k => toJson k)), ("marks", s.marks), ("pcs", ofNatList ((List.range n).map s.pc))]
 
 end Usid.Driver
